@@ -85,6 +85,7 @@ func HarnessC03(fam, nT, nX, convCode, form, sv, mode int) {
 	w.Log = nil
 	var r Result
 	if hGuardPlain(func() { r = w.Funcs[0].Call(args...) }) {
+		vnAssert(false, "C03.call-with-exact-inputs-does-not-panic")
 		return
 	}
 	vnTrace(fmt.Sprintf("outcome=%d", hOutcome(r, false)))
